@@ -60,7 +60,7 @@ def cases(tier, rng):
 def nontrivial(case, out):
     return 'EStarted' in out
 
-STAGES = [dict(name='schedule', mode='app', coq='Check.C09c', cases=cases, nontrivial=nontrivial, shard=20,
+STAGES = [dict(name='schedule', mode='app', coq='Check.C09c', profile=('Proofs.JudgeC09P', 'JudgeC09P.profile_C09b', 'C09_app_judgement_sound / C09_app_judgement_transfer'), cases=cases, nontrivial=nontrivial, shard=20,
                exhaustive={'thorough': False, 'quick': False},
                rule='one context (exclusive, or shared by three holders some of which leave in mid-run) with 16 actions: {key, mouse button, mouse motion, wheel} x {no condition, Press, Hold} and a key with action-level JustPress / Release / Tap, plus a consuming action on a Ctrl+key chord held over several frames; sub-frame taps (press + release events within one frame) on inputs that are not held; raw input injected as window events before the frame, by resource mutation '
                     'between frames, or from a system in First (fixed and mixed modes); harness systems: a marker before the crate\'s set, a marker + snapshot probe ordered after the set in PreUpdate, a snapshot '
